@@ -473,6 +473,8 @@ namespace
         if (n.kind == "const") { env.ports.emplace(key, wire<HConst>(w, lbl, num(0))); }
         else if (n.kind == "src") { env.ports.emplace(key, wire<HSrc>(w, lbl, num(0))); }
         else if (n.kind == "add") { env.ports.emplace(key, wire<HAdd>(w, lbl, arg(0), arg(1))); }
+        else if (n.kind == "addk") { env.ports.emplace(key, wire<HAdd>(w, num(0), arg(1), arg(2))); }   // label scalar given: may be shared
+        else if (n.kind == "sinkk") { wire<HSink>(w, num(0), arg(1)); }
         else if (n.kind == "acc") { env.ports.emplace(key, wire<HAcc>(w, lbl, arg(0))); }
         else if (n.kind == "pass") { env.ports.emplace(key, wire<HPass>(w, lbl, arg(0))); }
         else if (n.kind == "gate")
@@ -768,6 +770,12 @@ int main()
                 g_ticks.clear(); g_scripts.clear(); g_faults.clear(); g_subs.clear(); g_root.clear();
                 g_start = 1; g_end = 100; g_cleanup = true; cur_sub = nullptr;
                 std::cout << line << "\n";
+            }
+            else if (op == "reset")
+            {
+                g_ticks.clear(); g_scripts.clear(); g_faults.clear(); g_subs.clear(); g_root.clear();
+                g_start = 1; g_end = 100; g_cleanup = true; cur_sub = nullptr;
+                std::cout << "ok\n";
             }
             else if (op == "cfg")
             {
